@@ -50,12 +50,13 @@ ExprTrees == UNION {Trees[n] : n \in 0..1}
 VARIABLES kind, a, b, ex, kw
 evars == <<kind, a, b, ex, kw, tree>>
 EInit == /\ tree = Leaf(1)
-         /\ kind \in {"fact", "rule", "check", "policy", "block", "authorizer"}
+         /\ kind \in {"fact", "rule", "check", "policy", "block", "authorizer", "check0", "rule0"}
          /\ a \in 1..Len(TermCat) /\ b \in 1..Len(TermCat)
          /\ ex \in {Leaf(1)} \cup {t \in ExprTrees : t.k = "bin" /\ t.o \in {"eq", "lt", "and"} /\ t.l = Leaf(1)}
          /\ kw \in {"allow", "deny"}
          /\ (kind = "fact" => a \in GroundTerms /\ b \in GroundTerms /\ ex = Leaf(1) /\ kw = "allow")
          /\ (kind \in {"rule", "check", "block"} => kw = "allow")
+         /\ (kind \in {"check0", "rule0"} => a \in GroundTerms /\ b = 1 /\ kw = "allow")
          /\ (kind \in {"block", "authorizer"} => a \in GroundTerms /\ b = 3)
 ENext == UNCHANGED evars
 ESpec == EInit /\ [][ENext]_evars
@@ -69,6 +70,11 @@ RuleDen == [head |-> PredDen("allowed", <<3>>), body |-> << PredDen("right", <<3
 \* check: check if right($v, A), <expr> or res(B)
 CheckToks == <<"check if">> \o PredToks("right", <<3, a>>) \o <<",">> \o Render(ex) \o <<"or">> \o PredToks("res", <<b>>)
 CheckDen == << Q(<< PredDen("right", <<3, a>>) >>, << Postfix(ex) >>), Q(<< PredDen("res", <<b>>) >>, <<>>) >>
+\* bodies WITHOUT predicates: check if <expr>, <expr> or <expr>, <expr>      allowed(A) <- <expr>, <expr>
+Check0Toks == <<"check if">> \o Render(ex) \o <<",">> \o Render(ex) \o <<"or">> \o Render(ex) \o <<",">> \o Render(ex)
+Check0Den == << Q(<<>>, << Postfix(ex), Postfix(ex) >>), Q(<<>>, << Postfix(ex), Postfix(ex) >>) >>
+Rule0Toks == PredToks("allowed", <<a>>) \o <<"<-">> \o Render(ex) \o <<",">> \o Render(ex)
+Rule0Den == [head |-> PredDen("allowed", <<a>>), body |-> <<>>, exprs |-> << Postfix(ex), Postfix(ex) >>]
 PolicyToks == << kw \o " if" >> \o PredToks("res", <<b>>) \o <<"or">> \o Render(ex) \o <<",">> \o PredToks("right", <<3, a>>)
 PolicyDen == [kind |-> kw, q |-> << Q(<< PredDen("res", <<b>>) >>, <<>>), Q(<< PredDen("right", <<3, a>>) >>, << Postfix(ex) >>) >>]
 BlockToks == PredToks("right", <<a, a>>) \o <<";">> \o RuleToks \o <<";">> \o CheckToks \o <<";">>
@@ -79,6 +85,8 @@ EExport == PrintT(<<"CASE", ToJson(
     CASE kind = "fact" -> [kind |-> kind, toks |-> FactToks, fact |-> FactDen]
       [] kind = "rule" -> [kind |-> kind, toks |-> RuleToks, rule |-> RuleDen]
       [] kind = "check" -> [kind |-> kind, toks |-> CheckToks, check |-> CheckDen]
+      [] kind = "check0" -> [kind |-> "check", toks |-> Check0Toks, check |-> Check0Den]
+      [] kind = "rule0" -> [kind |-> "rule", toks |-> Rule0Toks, rule |-> Rule0Den]
       [] kind = "policy" -> [kind |-> kind, toks |-> PolicyToks, policy |-> PolicyDen]
       [] kind = "block" -> [kind |-> kind, toks |-> BlockToks, block |-> BlockDen]
       [] kind = "authorizer" -> [kind |-> kind, toks |-> AuthToks, block |-> BlockDen, policy |-> PolicyDen])>>)
